@@ -63,6 +63,18 @@ def stories():
     ]
 
 
+def big_stories():
+    """histories with megabytes in flight (C01, C18 only: the order monitor of C05 recurses over a chunk's records)"""
+    c = lambda n, pad: {"n": n, "pauseEvery": 0, "pauseMs": 0, "delayMs": 0, "pad": pad}
+    fin = {"upstream": [], "clients": [{"n": 3, "pauseEvery": 0, "pauseMs": 0, "delayMs": 0}], "stopAfterMs": 30, "drain": True}
+    return [
+        # an upstream that accepts the connection and never reads: with a wide ACK window the sender keeps writing until the
+        # socket buffers are full and is blocked in the middle of a chunk when the stop request comes
+        {"id": "blocked-mid-write-at-stop", "ackWindow": 1000, "keys": 1, "memWindow": 0, "gens": [{"upstream": ["noRead"] * 3, "clients": [c(6000, 2000)], "stopAfterMs": 300}, fin]},
+        {"id": "blocked-mid-write-then-reset", "ackWindow": 1000, "keys": 2, "memWindow": 2, "gens": [{"upstream": ["noRead", "resetAfter1", "noRead"], "clients": [c(5000, 2000), c(200, 100)], "stopAfterMs": 150}, fin]},
+    ]
+
+
 def random_script(sid, rnd, reload_kinds=()):
     c = lambda: {"n": rnd.choice([3, 8, 15, 30, 60]), "pauseEvery": rnd.choice([0, 3, 5, 10]), "pauseMs": rnd.choice([31, 35, 45]), "delayMs": rnd.choice([0, 0, 10, 40])}
     gens = []
